@@ -12,11 +12,11 @@ SPEC = {
                 "build_cfg of the same schema succeeds including its final validation, the loaded values are the same (same_values: ids, default "
                 "marks and storage order ignored; the one normalisation is a list-of-configurations slot None -> []) and the loaded state is "
                 "deeply valid again; C02_roundtrip_partial -- the same conclusion from the library's own premises (Normal state, validate() "
-                "reports nothing, no configuration with its feature flag off = known_F36 false); C02_tree_plain -- the tree is plain data when "
+                "reports nothing -- list items included, via validated_means --, no configuration with its feature flag off = known_F36 false); C02_tree_plain -- the tree is plain data when "
                 "fields render plain data and dynamic fields hold plain data; C02_codec_roundtrip -- loads(dumps c) ~ c for any codec with "
                 "dec(enc t) = t on its domain; C02_inst_tree_roundtrip -- no hypothesis left for the concrete Int/String/Bool/FeatureFlag/Any "
-                "field model; C02_same_values_verdict; witnesses C02_roundtrip_refuted_F36 and C02_roundtrip_refuted_stale_item (F50) computed "
-                "on the model. Leaf laws (to_python(to_basic v) validates back to v; to_basic renders plain data) are premises: they are C05's "
+                "field model; C02_same_values_verdict; witness C02_roundtrip_refuted_F36 computed on the model; C02_stale_item_rejected: the former F50 witness (a list item made "
+                "invalid after insertion) is now rejected by whole-configuration validation, which descends into list items. Leaf laws (to_python(to_basic v) validates back to v; to_basic renders plain data) are premises: they are C05's "
                 "theorems. Tied to /repo by stream `roundtrip`: the model-sized part of every case (state reached by a real history, real "
                 "to_tree, real load_tree into a fresh configuration, verdict) is compared with run_roundtrip inside Coq; the direct oracle "
                 "saves and re-loads real configurations over every persistent built-in field type (bytes base64/hex, challenge digests, "
@@ -25,14 +25,14 @@ SPEC = {
         "note": "Trusted: Coq kernel + vm_compute; harness; leaf to_basic/to_python/validate abstract in the theorems (C05); third-party codecs "
                 "enter as an abstract law dec(enc t) = t (Formats.v's C04 theorems are over its own pdata type; not instantiated here) and are "
                 "sampled by the oracle. Open findings: F34 (key file named below the root), F35 (include field holding a path) -- field kinds "
-                "outside Config.v, classified by the oracle only; F36 (required field unset inside a disabled feature) and F50 (validate() never "
-                "descends into list items) -- reproduced by the model (refuted witnesses); F53 (a typed dict with an int/float/bool key field "
+                "outside Config.v, classified by the oracle only; F36 (required field unset inside a disabled feature) -- reproduced by the model (refuted witness); F50 (validate() did not "
+                "descend into list items) is repaired: its cases are regression cases of the stream; F53 (a typed dict with an int/float/bool key field "
                 "renders non-string keys into the tree) -- plain-data clause of the oracle. No axioms.",
         "design_ref": "DESIGN.md section 6 C02"},
     "streams": ["roundtrip"],
     "witnesses": ["F1", "F14", "F41"],
     "rule": "deterministic matrix (one case per persistent field type and container kind x every format/option, typed dicts with binary (hex/base64) and "
-            "integer KEY fields at the root / nested / in list items, the finding regions F34/F35/F36/F50/F53, "
+            "integer KEY fields at the root / nested / in list items, the finding regions F34/F35/F36/F53, stale list items (F50 regression), "
             "virtual/method fields, normalisation cases) plus seeded random schemas (depth <= 3, lists of schemas, config types, dynamic) with "
             "states reached by random valid assignments; cases that fit Config.v's vocabulary (int/str/bool/flag/any leaves, sub-schemas, lists "
             "of configurations, validators) reach their state by a configops history and are also evaluated by the model; non-trivial = at least "
